@@ -1,6 +1,6 @@
 (* Property theorems of the Backend cluster (C11, C12). Nothing but statements, [exact], and
    Print Assumptions. *)
-From FC Require Import Backend.Model Backend.ProofsOrd Backend.ProofsIter Backend.ProofsCommit.
+From FC Require Import Backend.Model Backend.ProofsOrd Backend.ProofsIter Backend.ProofsCommit Backend.ProofsHist.
 Open Scope N_scope.
 
 (* C11. For EVERY sorted map (a BTreeMap), prefix, start key and direction the iterator of
@@ -80,3 +80,91 @@ Theorem c11_checker_sound : forall nb cms qs observed,
   length observed = nb /\ Forall (fun o => o = tObs (spec_obs cms qs)) observed.
 Proof. exact c11_okb_sound. Qed.
 Print Assumptions c11_checker_sound.
+
+(* the observation the model computes - the one compared textually with the implementation's on
+   every case - passes that checker on every conflict-free history *)
+Theorem model_obs_accepted_partial : forall bs cms qs,
+  history_conflict_free cms -> Forall bytes_commit cms -> Forall query_ok qs ->
+  c11_okb (length bs) cms qs (map (fun b => tObs (model_obs b cms qs)) bs) = true.
+Proof. exact model_passes_c11. Qed.
+Print Assumptions model_obs_accepted_partial.
+
+(* ---------------------------------------------------------------------------------- C12 *)
+
+(* Over ALL histories of block commits (any change sets), rollbacks of the latest block and
+   restarts with any (changed) rewind policy, from the empty database: a view at height h is either
+   refused (None = NoHistoryForRequestedHeight) or returns for every key exactly the value of the
+   snapshot taken right after block h (for h = start-1: the empty state before the first block).
+   Hypotheses: the change sets are maps (no (column,key) twice) over the key universe U; heights
+   fit u64; and the two classes found to be violated by the code are excluded:
+   (H1) no key of a column is a proper prefix of another key of that column (every real table has
+        fixed-length keys), (H2) the retained heights have no hole [gap_free], which fails after a
+        restart that shrinks the window or after a NoRewind interlude. *)
+Theorem view_exact_or_nohistory_partial : forall U start p ops,
+  ops_wf U ops -> prefix_free U = true -> u64 (start + N.of_nat (length ops)) ->
+  gap_free (fst (grun start (hinit p) [] ops)) = true ->
+  forall h c k, u64 (h + 1) -> In (c, k) U ->
+  match create_view_at h (s_db (fst (grun start (hinit p) [] ops))) with
+  | None => True
+  | Some rb => exists sn, snapshot start (snd (grun start (hinit p) [] ops)) h = Some sn /\
+               view_get rb (s_db (fst (grun start (hinit p) [] ops))) c k = lookup sn c k
+  end.
+Proof. exact view_exact_or_nohistory_all. Qed.
+Print Assumptions view_exact_or_nohistory_partial.
+
+(* (H2) is necessary: RewindRange{3} for five blocks, restart with RewindRange{1}, one more block:
+   the view at height 4 is not refused and returns the value of height 5. *)
+Theorem view_exact_or_nohistory_refuted :
+  let s := fst (grun 1 (hinit 4) [] ex_s7_ops) in
+  gap_free s = false /\
+  create_view_at 4 (s_db s) = Some 5 /\ view_get 5 (s_db s) 0 [1; 0] = Some [5] /\
+  exists sn, snapshot 1 (snd (grun 1 (hinit 4) [] ex_s7_ops)) 4 = Some sn /\ lookup sn 0 [1; 0] = Some [4].
+Proof. exact view_gap_refuted. Qed.
+Print Assumptions view_exact_or_nohistory_refuted.
+
+(* what the repaired defect S6 was: the original ViewAtHeight::get compared only the first |key|
+   bytes of the found history key *)
+Theorem view_mixed_lengths_original_wrong :
+  let s := fst (grun 1 (hinit 1) [] ex_s6_ops) in
+  view_get_orig 2 (s_db s) 0 [1; 0] = Some None /\ view_get 2 (s_db s) 0 [1; 0] = Some [5] /\
+  prefix_free (universe ex_s6_ops) = false.
+Proof. exact view_mixed_lengths_orig_refuted. Qed.
+Print Assumptions view_mixed_lengths_original_wrong.
+
+(* Over ALL such histories (no exclusion): the database always holds exactly the newest snapshot of
+   the chain of accepted, not rolled back blocks - a commit applies exactly its change set, a
+   successful rollback restores exactly the state of the previous height, repeatedly - and a
+   rollback of the latest height succeeds exactly when its history record is retained. *)
+Theorem rollback_restores_prev : forall U start p ops,
+  ops_wf U ops -> u64 (start + N.of_nat (length ops)) ->
+  let s := fst (grun start (hinit p) [] ops) in
+  let ch := snd (grun start (hinit p) [] ops) in
+  ceq (h_main (s_db s)) (chain_top ch) /\ s_latest s = chain_latest ch /\
+  (forall l, s_latest s = Some l -> (snd (hist_rollback l (s_db s)) = true <-> Hd (s_db s) l <> None)).
+Proof. exact rollback_restores_prev_all. Qed.
+Print Assumptions rollback_restores_prev.
+
+(* one step, from ANY database state: committing block h with history on and rolling back to h
+   restores every column exactly *)
+Theorem rollback_undoes_commit_step : forall p h sc d, p <> 0 -> csorted (h_main d) -> ssorted (h_hist d) ->
+  let d' := fst (hist_commit p (Some h) sc d) in
+  snd (hist_rollback h d') = true /\ ceq (h_main (fst (hist_rollback h d'))) (h_main d).
+Proof. exact rollback_undoes_commit. Qed.
+Print Assumptions rollback_undoes_commit_step.
+
+(* Pcheck of C12 = the trace specification: every step's result tag is possible, the database equals
+   the newest snapshot, every view is refused or equals the snapshot of its height *)
+Theorem c12_checker_sound : forall start ops obs,
+  c12_okb start ops obs = true <-> HTrace start (universe ops) (view_heights start ops) [] ops obs.
+Proof. exact c12_okb_sound. Qed.
+Print Assumptions c12_checker_sound.
+
+(* the trace the model computes - the one compared textually with the implementation's on every
+   case - passes that checker on every history outside the two classes *)
+Theorem model_trace_accepted_partial : forall U start p ops,
+  ops_wf U ops -> prefix_free U = true -> incl (universe ops) U ->
+  u64 (start + N.of_nat (length ops) + 2) ->
+  run_gap_free start (hinit p) ops = true ->
+  c12_okb start ops (hmodel start p ops) = true.
+Proof. exact model_passes_c12. Qed.
+Print Assumptions model_trace_accepted_partial.
